@@ -74,3 +74,66 @@ Print Assumptions C01_emu_eq_kernel.
 Print Assumptions C01_result_in_root.
 Print Assumptions C01_empty_path.
 Print Assumptions C01_wf_check_sound.
+
+(* ---- the library's program, not only the pure walk ------------------------------------
+   [resolve_gen] is the model program of opath::resolve (OpathM.opath_resolve_root is
+   its instance for check_current: C01_program_is_the_model) -- the program that tie
+   T1 replays against the real library call by call.  Executed on the static kernel
+   of theories/Static.v (validated against the running kernel by tie T2'), over ANY
+   well-formed tree and any path, it returns a descriptor for exactly the object the
+   kernel's RESOLVE_IN_ROOT walk ends on, or that walk's errno -- for every check
+   routine that succeeds when the walk is where it believes to be. *)
+From PV Require Import Static StaticProofs.
+
+Theorem C01_program_refines_walk :
+  forall s df, wf s df -> links_ok s ->
+  forall fz chk, fz <> 0%nat -> chk_static_ok s chk ->
+  forall ps nosym nf t root path, tget t root = Some ROOT -> has_nul path = false ->
+    match ewalk s path nf nosym with
+    | WOk o => exists t' fd, run s t (resolve_gen fz ps chk root path nosym nf) = Done t' (Ok fd) /\ tget t' fd = Some o
+    | WErr n => exists t', run s t (resolve_gen fz ps chk root path nosym nf) = Done t' (Err (OsError n))
+    | WBudget => exists t', run s t (resolve_gen fz ps chk root path nosym nf) = Done t' (Err (OsError ELOOP))
+    end.
+Proof. intros s df Hwf Hl fz chk Hfz Hchk ps nosym nf t root path. exact (resolve_static s fz Hfz chk Hchk df Hwf Hl ps nosym nf t root path). Qed.
+
+Theorem C01_program_eq_kernel :
+  forall s df, wf s df -> links_ok s ->
+  forall fz chk, fz <> 0%nat -> chk_static_ok s chk ->
+  forall ps nosym nf t root path, tget t root = Some ROOT -> has_nul path = false ->
+    (EMPTY_PATH_IS_ENOENT = true \/ path <> []) ->
+    match kwalk s path nf nosym with
+    | WOk o => exists t' fd, run s t (resolve_gen fz ps chk root path nosym nf) = Done t' (Ok fd) /\ tget t' fd = Some o
+    | WErr n => exists t', run s t (resolve_gen fz ps chk root path nosym nf) = Done t' (Err (OsError n))
+    | WBudget => True          (* more than 40 link traversals: known finding F-H *)
+    end.
+Proof.
+  intros s df Hwf Hl fz chk Hfz Hchk ps nosym nf t root path Hroot Hnul Hp.
+  pose proof (C01_program_refines_walk s df Hwf Hl fz chk Hfz Hchk ps nosym nf t root path Hroot Hnul) as H.
+  destruct (kwalk s path nf nosym) as [o|n|] eqn:Ek; [| |exact I];
+    rewrite (emu_eq_kernel s df Hwf path nf nosym Hp) in H by (rewrite Ek; discriminate); rewrite Ek in H; exact H.
+Qed.
+
+Theorem C01_program_is_the_model :
+  forall fz o2 pfuel gh ps root path nosym nf,
+    opath_resolve_root fz o2 pfuel gh ps root path nosym nf =
+    resolve_gen fz ps (check_current fz o2 pfuel gh) root path nosym nf.
+Proof. exact resolve_is_gen. Qed.
+
+(* non-vacuity: the premises are met by a concrete tree and check routine, and the
+   program really runs to the kernel's answer there *)
+Example C01_program_concrete :
+  let s := FSModel.build [FSModel.MkDir [b "a"]; FSModel.MkDir [b "a"; b "b"]; FSModel.MkFile [b "a"; b "b"; b "f"]; FSModel.MkLnk [b "esc"] (b "../../..");
+                  FSModel.MkLnk [b "a"; b "up"] (b "../a/b"); FSModel.MkLnk [b "abs"] (b "/a")] in
+  let chk := fun (_ _ : Z) (_ : list bytes) => Ret (Ok tt) in
+  wf_b s = true /\ chk_static_ok s chk /\
+  (match run s [(5%Z, ROOT)] (resolve_gen 1 1 chk 5 (b "esc/a/up/../b/f") false false) with
+   | Done t' (Ok fd) => tget t' fd
+   | _ => None end) = Some 3%nat /\
+  (match run s [(5%Z, ROOT)] (resolve_gen 1 1 chk 5 (b "a/b/f/x") false false) with
+   | Done _ (Err (OsError e)) => Some e
+   | _ => None end) = Some E_NOTDIR.
+Proof. split; [vm_compute; reflexivity|]. split; [intros t cur root exp o _ _ _; reflexivity|]. split; vm_compute; reflexivity. Qed.
+
+Print Assumptions C01_program_refines_walk.
+Print Assumptions C01_program_eq_kernel.
+Print Assumptions C01_program_is_the_model.
